@@ -88,7 +88,7 @@ def strategy(tier):
 # ---------------------------------------------------------------------------
 # running the validator
 
-def verdict(path, sub=False):
+def verdict(path, sub=False, fmt=None):
     """'valid' | 'invalid' | 'error' through the command and the function
     (sub=True: additionally through a real `biom validate-table` process)."""
     from ..cli import command
@@ -103,14 +103,15 @@ def verdict(path, sub=False):
         if _validate_table is None:
             v1 = None
         else:
-            ok, report = _validate_table(path)
+            ok, report = _validate_table(path, fmt)
             v1 = "valid" if ok else "invalid"
     except (Exception, SystemExit):
         v1 = "error"
     buf = io.StringIO()
     try:
         with contextlib.redirect_stdout(buf):
-            validate_table.main(["-i", path], standalone_mode=False)
+            validate_table.main(["-i", path] + (["-f", fmt] if fmt else []),
+                                standalone_mode=False)
         v2 = "error"
     except SystemExit as e:
         v2 = "valid" if e.code in (0, None) else "invalid"
@@ -655,6 +656,13 @@ def check(case, rec):
                 t.to_hdf5(f, gby, **dkw)
         # (A) what the library writes is valid
         v = verdict(base, sub=case.get("sub", False))
+        # every accepted spelling of the file's own format version
+        for fmt in (["1.0.0"] if container == "json" else ["2.1", "2.1.0"]):
+            vf_ = verdict(base, fmt=fmt)
+            if vf_[0] != "valid" or vf_[1] != "valid":
+                raise Violation("library-output-not-valid", "%s written by "
+                                "the library, validated with --format-version"
+                                " %s: verdict %r" % (container, fmt, vf_))
         if v[0] != "valid" or v[1] != "valid":
             raise Violation("library-output-not-valid", "%s written by the "
                             "library: verdict %r" % (container, v))
